@@ -66,6 +66,7 @@ pub fn generate(seed: u64, tier: Tier) -> HttpPlan {
             think_ns: rng.below(2) * rng.below(5 * MS),
             linger_ns: 0,
             give_up_ns: 0,
+            wait_board: None,
         });
     }
     for cl in 0..nclusters {
